@@ -5,9 +5,9 @@ Obj = {a, b}
 NULL = NULL
 ObjSeq <- ObjSeqDef
 FmtSel = {1, 2}
-RndSel = {1, 2}
+RndSel = {1}
 OvfSel = {1}
-GridSel = {2, 4, 6}
+GridSel = {1, 2, 4, 6}
 Acts <- ActsC04
 Depth = 3
 EXT = 4
